@@ -83,6 +83,34 @@ def hdens_cdf(x, m=3.2, s=1.9):
     return np.array([0.5 * (1.0 + math.erf((xi - m) / (s * math.sqrt(2.0)))) for xi in np.atleast_1d(x)])
 
 
+# role 'C': the second member of a MultiFit that SHARES one parameter (by name) with the role 'A' member; it is
+# fitted to the data of role 'B'
+def expo_c(x, a=1.1, k=-0.2):
+    return 8.0 * a * np.exp(k * x)
+
+
+def expo_c_jac(x, a, k):
+    e = np.exp(k * x)
+    return np.array([8.0 * e, 8.0 * a * x * e])
+
+
+def make_jmodel_c(n):
+    W = _idx_design(n)
+
+    def jmodel_c(a=1.2, q=-0.5, r=0.4):
+        return 3.3 * a * W[0] + q * W[1] * W[1] + r * W[2] + 6.0
+
+    return jmodel_c
+
+
+def hdens_c(x, m=3.2, sigma=1.6):
+    return np.exp(-0.5 * ((x - m) / sigma) ** 2) / np.sqrt(2.0 * np.pi * sigma**2)
+
+
+def hdens_c_cdf(x, m=3.2, sigma=1.6):
+    return hdens_cdf(x, m, sigma)
+
+
 # the same shapes as count densities (HistFit(density=False): the model function itself carries the normalisation)
 def gcount(x, n=28.0, mu=2.9, sigma=1.6):
     return n * gdens(x, mu, sigma)
@@ -114,6 +142,40 @@ UNC = {
     "unbinned": ["none"],
 }
 UNC_THOROUGH_EXTRA = {"xy": ["poisson+y", "y+fixed"], "indexed": ["poisson+y"], "hist": ["poisson+y"], "unbinned": []}
+# the cost-function dimension: every built-in cost function that implies Poisson statistics (likelihood 'nll', likelihood
+# ratio 'nllr', Gauss approximation) x {no declared source, one declared y source}, and the Gaussian likelihood / likelihood
+# ratio (which need a declared source and must NOT show a square-root-of-counts term).  Not in this list because they are
+# already part of UNC: 'poisson' (= nll without source) and 'ga+y'; 'poisson+y' is part of the first product in the thorough tier
+UNC_COST_ALL = ["poisson+y", "nllr", "nllr+y", "ga", "gnll+y", "gnllr+y"]
+UNC_COST = {"xy": list(UNC_COST_ALL), "indexed": list(UNC_COST_ALL), "hist": list(UNC_COST_ALL), "unbinned": []}
+# (cost function name, keyword arguments of the ...CostFunction_NegLogLikelihood / ..._GaussApproximation object, Poisson term?)
+COST_OF = {
+    "none": ("chi2", None, False),
+    "y": ("chi2", None, False),
+    "xy": ("chi2", None, False),
+    "y+fixed": ("chi2", None, False),
+    "y+relm": ("chi2", None, False),
+    "x+rely": ("chi2", None, False),
+    "y+msh": ("chi2", None, False),
+    "poisson": ("nll", None, True),
+    "poisson+y": ("nll", None, True),
+    "ga+y": ("gauss_approximation", None, True),
+    "ga": ("gauss_approximation", ("GaussApproximation", {}), True),
+    "nllr": ("nllr", ("NegLogLikelihood", dict(data_point_distribution="poisson", ratio=True)), True),
+    "nllr+y": ("nllr_poisson", ("NegLogLikelihood", dict(data_point_distribution="poisson", ratio=True)), True),
+    "gnll+y": ("nll_gaussian", ("NegLogLikelihood", dict(data_point_distribution="gaussian", ratio=False)), False),
+    "gnllr+y": ("nllr_gaussian", ("NegLogLikelihood", dict(data_point_distribution="gaussian", ratio=True)), False),
+}
+# uncertainty configurations of the members of a plotted MultiFit: no source (chi2, no valid errors), member sources,
+# member sources + one fully correlated source shared by both members that is declared on the MultiFit ('y+msh': needs
+# members of equal size), a cost that is neither chi2 nor saturated ('poisson'), a saturated one ('nllr')
+UNC_MULTI = {
+    "xy": ["none", "y", "y+msh", "poisson", "nllr"],
+    "indexed": ["none", "y", "y+msh", "poisson", "nllr"],
+    "hist": ["none", "y", "poisson", "nllr"],
+    "unbinned": ["none"],
+}
+MSH = 0.37  # size of the shared source of 'y+msh'
 # the data dimension: where in the value space the plotted numbers lie
 #   regular : every count / value is positive, every histogram entry lies inside the bin range
 #   zero    : one point is exactly zero (a zero count / an empty bin): with Poisson statistics and no declared source the
@@ -183,14 +245,21 @@ class World(object):
         self.ftype, self.unc, self.v, self.role, self.data = ftype, unc, int(v) % 3, role, data
         n = 6
         val = V(v, n)
-        self.poisson = unc in ("poisson", "ga+y", "poisson+y")
-        with_y = unc in ("y", "xy", "ga+y", "poisson+y", "y+fixed", "y+relm")
+        cost, cost_object, self.poisson = COST_OF[unc]
+        with_y = unc in ("y", "xy", "ga+y", "poisson+y", "y+fixed", "y+relm", "y+msh", "nllr+y", "gnll+y", "gnllr+y")
+        drole = "A" if role == "A" else "B"  # whose data: role 'C' is another model for the data of role 'B'
 
         self.rm = 0.0  # size of a y uncertainty relative to the MODEL (its bar follows the fitted model values)
-        cost = {"none": "chi2", "y": "chi2", "xy": "chi2", "y+fixed": "chi2", "y+relm": "chi2", "poisson": "nll", "poisson+y": "nll", "ga+y": "gauss_approximation", "x+rely": "chi2"}[unc]
         if ftype == "unbinned":
             cost = "nll"
         self.cost = cost
+        if cost_object is not None and role != "A" and ftype != "unbinned":
+            # the other way to specify the same cost function: role 'A' passes the name, the others a cost function object
+            import importlib
+
+            mod = importlib.import_module({"xy": "kafe2.fit.xy", "indexed": "kafe2.fit.indexed", "hist": "kafe2.fit.histogram"}[ftype])
+            cls = getattr(mod, {"xy": "XY", "indexed": "Indexed", "hist": "Hist"}[ftype] + "CostFunction_" + cost_object[0])
+            cost = cls(**cost_object[1])
         self.x = self.xerr = None
         self.jac = None
         self.fixed = {}
@@ -206,14 +275,14 @@ class World(object):
                 else:
                     self.y = val.y if role == "A" else val.y_alt
                 self.y = self._with_zero(self.y)
-                self.fn, self.jac = (lin, lin_jac) if role == "A" else (expo, expo_jac)
+                self.fn, self.jac = {"A": (lin, lin_jac), "B": (expo, expo_jac), "C": (expo_c, expo_c_jac)}[role]
                 f = kafe2.XYFit([self.x, self.y], self.fn, cost_function=cost)
                 self.yerr = np.zeros(n)
                 self.xerr = np.zeros(n)
                 if with_y:
                     f.add_error("y", ey)
                     self.yerr = np.array(ey, dtype=float)
-                    if unc in ("y", "y+fixed"):
+                    if unc in ("y", "y+fixed", "y+msh"):
                         f.add_error("y", ey_b, correlation=rho)
                         self.yerr = np.sqrt(ey**2 + ey_b**2)
                 if unc == "xy":
@@ -233,7 +302,7 @@ class World(object):
                     f.add_error("y", val.rm, relative=True, reference="model")
                     self.rm = float(val.rm)
                 if unc == "y+fixed":
-                    name = "b" if role == "A" else "k"
+                    name = "b" if role == "A" else "k"  # (never a parameter that role 'C' shares with role 'A')
                     value = 0.55 if role == "A" else -0.21
                     f.fix_parameter(name, value)
                     self.fixed[name] = value
@@ -243,13 +312,13 @@ class World(object):
                 else:
                     self.y = val.y if role == "A" else val.y_alt
                 self.y = self._with_zero(self.y)
-                self.fn = make_imodel(n) if role == "A" else make_jmodel(n)
+                self.fn = {"A": make_imodel, "B": make_jmodel, "C": make_jmodel_c}[role](n)
                 f = kafe2.IndexedFit(self.y, self.fn, cost_function=cost)
                 self.yerr = np.zeros(n)
                 if with_y:
                     f.add_error(ey)
                     self.yerr = np.array(ey, dtype=float)
-                    if unc == "y":
+                    if unc in ("y", "y+msh"):
                         f.add_error(ey_b, correlation=rho)
                         self.yerr = np.sqrt(ey**2 + ey_b**2)
                     if unc == "y+relm":
@@ -257,10 +326,10 @@ class World(object):
                         self.rm = float(val.rm)
             elif ftype == "hist":
                 self.edges = EDGES_A if role == "A" else EDGES_B
-                self.entries = entries_for(role, v, data)
-                self.fn, self.cdf = (gdens, gdens_cdf) if role == "A" else (hdens, hdens_cdf)
+                self.entries = entries_for(drole, v, data)
+                self.fn, self.cdf = {"A": (gdens, gdens_cdf), "B": (hdens, hdens_cdf), "C": (hdens_c, hdens_c_cdf)}[role]
                 if data == "counts":
-                    self.fn, self.cdf = (gcount, gcount_cdf) if role == "A" else (hcount, hcount_cdf)
+                    self.fn, self.cdf = {"A": (gcount, gcount_cdf), "B": (hcount, hcount_cdf)}[role]
                 nb = len(self.edges) - 1
                 c = kafe2.HistContainer(n_bins=nb, bin_range=(self.edges[0], self.edges[-1]), bin_edges=list(self.edges), fill_data=list(self.entries))
                 f = kafe2.HistFit(c, self.fn, cost_function=cost, bin_evaluation=self.cdf, **(dict(density=False) if data == "counts" else {}))
@@ -283,8 +352,8 @@ class World(object):
                         f.add_error(e2, correlation=rho)
                         self.yerr = np.sqrt(e**2 + e2**2)
             elif ftype == "unbinned":
-                self.entries = entries_for(role, v)
-                self.fn = gdens if role == "A" else hdens
+                self.entries = entries_for(drole, v)
+                self.fn = {"A": gdens, "B": hdens, "C": hdens_c}[role]
                 f = kafe2.UnbinnedFit(self.entries, self.fn)
                 self.y = None
                 self.x = np.sort(self.entries)
@@ -293,11 +362,13 @@ class World(object):
                 raise ValueError(ftype)
         self.fit = f
         self.num = f  # the fit whose public results are the expectation (a never-plotted twin when plotting re-minimises)
+        # when the fit is a member of a plotted MultiFit: that MultiFit and the one whose public results are the expectation
+        self.multi = self.multi_num = None
 
     def _with_zero(self, y):
         y = np.array(y, dtype=float)
         if self.data == "zero":
-            y[ZERO_INDEX[self.role]] = 0.0
+            y[ZERO_INDEX["A" if self.role == "A" else "B"]] = 0.0
         return y
 
     # -- reference numbers --------------------------------------------------------------
@@ -329,6 +400,23 @@ class World(object):
     def has_ybar(self):
         b = self.ybar()
         return b is not None and bool(np.any(b != 0))
+
+
+def make_multi(worlds, unc):
+    """MultiFit of the (unfitted) fits of `worlds`; updates the reference numbers of the worlds with what is declared on the MultiFit"""
+    import kafe2
+
+    with warnings.catch_warnings():
+        warnings.simplefilter("ignore")
+        m = kafe2.MultiFit([w.fit for w in worlds])
+        if unc == "y+msh":
+            # one source shared by all members (fully correlated between all points of all members), declared on the MultiFit
+            m.add_error(MSH, fits="all", axis="y" if worlds[0].ftype == "xy" else None, correlation=1.0)
+            for w in worlds:
+                w.yerr = np.sqrt(w.yerr**2 + MSH**2)
+    for w in worlds:
+        w.multi = w.multi_num = m
+    return m
 
 
 # ---------------------------------------------------------------------------------------
@@ -446,8 +534,24 @@ def parse_info(text):
     fname = _plain_name(re.split(r"\\left\(|\(", g[0])[0]) if g else head
     fname = re.sub(r"_i$", "", fname)
     out = dict(function=fname, pars=[], gof=[], raw=text)
+    out["global"] = []  # lines about the MultiFit the fit is a member of (same entries as 'gof')
     for ln in lines[1:]:
         s = ln.strip()
+        if s.startswith("$\\hookrightarrow$ global"):
+            rest = s[len("$\\hookrightarrow$ global") :]
+            gg = _math_groups(rest)
+            expr = gg[-1]
+            if "probability" in rest:
+                out["global"].append(dict(kind="probability", label="global chi2 probability", value=Shown(expr), ndf=None, ratio=None))
+            elif "ndf" in rest:
+                parts = [p.strip() for p in expr.split(" = ")]
+                if "ndf" in parts[0]:
+                    parts = parts[1:]
+                vn = [p.strip() for p in parts[0].split(" / ")]
+                out["global"].append(dict(kind="per_ndf", label=rest, value=Shown(vn[0]), ndf=int(vn[1]), ratio=Shown(parts[1]) if len(parts) > 1 else None))
+            else:
+                out["global"].append(dict(kind="value", label=rest, value=Shown(expr.split(" = ")[-1].strip()), ndf=None, ratio=None))
+            continue
         if s.startswith("$\\hookrightarrow"):
             body = s[len("$\\hookrightarrow") :]
             if "probability" in body:
